@@ -37,6 +37,10 @@ def gen_program(r: Any, kind: str) -> dict:
         eff = max(0.0, delay)
         cancel = r.choice([None, None, 0.0, eff / 2, eff, eff, eff + 0.1]) if eff > 0 else r.choice([None, None, 0.0])
         items.append({"mode": mode, "delay": delay, "cancel_after": cancel})
+    if not any(it["delay"] > 0 and (it["cancel_after"] is None or it["cancel_after"] >= it["delay"]) for it in items):
+        # every program has at least one timed item that is allowed to run (the 'no early start' half needs one)
+        items.append({"mode": r.choice(["rel", "rel_td", "abs"]), "delay": r.choice([0.1, 0.2, 0.5]), "cancel_after": None})
+    r.shuffle(items)
     return {"kind": kind, "items": items}
 
 
@@ -46,6 +50,8 @@ HAND = [
     {"kind": "newthread", "items": [{"mode": "rel", "delay": 0.1, "cancel_after": 0.1}]},
     {"kind": "threadpool", "items": [{"mode": "abs", "delay": 0.1, "cancel_after": 0.05}, {"mode": "rel", "delay": 0.1, "cancel_after": None}]},
     {"kind": "eventloop", "items": [{"mode": "rel", "delay": 0.1, "cancel_after": 0.1}, {"mode": "rel", "delay": 0.2, "cancel_after": None}]},
+    {"kind": "eventloop", "items": [{"mode": "rel", "delay": 0.2, "cancel_after": None}, {"mode": "imm", "delay": 0.0, "cancel_after": None}]},
+    {"kind": "newthread", "items": [{"mode": "abs", "delay": 0.2, "cancel_after": None}, {"mode": "imm", "delay": 0.0, "cancel_after": None}]},
 ]
 
 
